@@ -104,3 +104,9 @@ chk('C18', 'exploration',
     'module-level container of the loaded pyx12 modules are compared after each document. Held on the histories produced.',
     'Trusted: the normalisation of the exempted acknowledgement/HTML fields in checks/c18.py.',
     'differential runtime monitoring (history vs fresh interpreter, varying hash seed) + state sentinels at quiescent points', 'DESIGN.md 5 C18')
+chk('C15', 'exploration',
+    'The real element_if.is_valid / composite_if.is_valid are driven with the list-collecting error handler over every distinct definition (quick) or every node (thorough, exhaustive over the shipped maps) x a '
+    'per-definition value catalogue spanning each constraint boundary x charset x external-code exclusion x date/time qualifier context; the reported code set must equal the set an independent reading of '
+    'map + dataele + codes implies, and the boolean result must be False exactly when a code was reported.',
+    'Trusted: expected_ele() in checks/c15.py, vlib/ref_values.py for data types, vlib/refmap.py for the definitions.',
+    'reference-model monitor over an enumerated node x value catalogue', 'DESIGN.md 5 C15')
